@@ -36,6 +36,8 @@ DenseOf(ent, m, n, cplx, tr) ==
      LET S == {t \in 1..Len(ent) : IF tr THEN ent[t][2] = ij[1] /\ ent[t][1] = ij[2]
                                          ELSE ent[t][1] = ij[1] /\ ent[t][2] = ij[2]}
      IN IF S = {} THEN CZero ELSE Val(ent[CHOOSE t \in S : TRUE][3], cplx)]
+SeqToFn(s, n) == [i \in Cols(n) |-> s[i + 1]]
+IsPermSeq(s, n) == Len(s) = n /\ {s[i] : i \in 1..n} = Cols(n)
 PatternOf(ent, tr) == {IF tr THEN <<ent[t][2], ent[t][1]>> ELSE <<ent[t][1], ent[t][2]>> : t \in 1..Len(ent)}
 
 (***************************************************************************)
@@ -196,8 +198,10 @@ GstrfVerdict(ev) ==
       fv == FactorVerdict(ev, F, PatternOf(ev.A0, FALSE), m, n, Dy(UTok(ev)), UOK(ev), ev.opts.Fact = 2, FALSE)
       bad == fv.bad
         \cup (IF \E k \in 1..Len(ev.A1v) : ev.A1v[k] # ev.A0[k][3] THEN {"C02.A_modified"} ELSE {})
+        \* column order and elimination tree are inputs of the factor routine: what sp_preorder returned is what the caller keeps
+        \cup (IF Has(ev, "order_in_same") /\ ev.order_in_same # <<1, 1>> THEN {"C10.factor_routine_wrote_ordering_or_tree", "C06.etree_not_reused"} ELSE {})
         \cup LedgerCls(ev, OutcomeCls(ev))
-  IN [bad |-> bad, arb |-> fv.arb, cov |-> fv.cov]
+  IN [bad |-> bad, arb |-> fv.arb, cov |-> fv.cov \cup (IF Has(ev, "order_in_same") THEN {"C10.factor_inputs_checked"} ELSE {})]
 
 (***************************************************************************)
 (* Memory events (hooks in [sdcz]memory.c, DESIGN 4.2): safety layer of     *)
@@ -403,7 +407,13 @@ GssvxVerdict(ev, sc) ==
       refOff == solved /\ ev.fn = "gssvx" /\ ev.opts.IterRefine = 0
       \* --- storage clauses (C07 / C08)
       haswork == Has(ev, "work")
-      digs == IF Has(ev, "L") /\ Has(ev.L, "dig") /\ Has(ev, "U") /\ Has(ev.U, "dig") THEN <<ev.L.dig, ev.L.digs, ev.U.dig, ev.U.digs, ev.perm_r, ev.perm_c, ev.L.nnz, ev.U.nnz>> ELSE <<>>
+      digs == IF Has(ev, "L") /\ Has(ev.L, "dig") /\ Has(ev, "U") /\ Has(ev.U, "dig") THEN <<ev.L.dig, ev.L.digs, ev.U.dig, ev.U.digs, ev.perm_r, ev.perm_c, ev.L.nnz, ev.U.nnz, info>> ELSE <<>>
+      \* runs whose factors are compared across ways of obtaining storage: success, and for the incomplete factorization also
+      \* 0 < info <= n (the number of replaced pivots is part of the answer)
+      cmpInfo == info = 0 \/ (isilu /\ info > 0 /\ info <= n)
+      etreeDue == fact = 0 /\ ~query /\ info >= 0 /\ info <= n + 1 /\ n <= 16 /\ Has(ev, "etree") /\ IsPermSeq(ev.perm_c, n)
+      etreeOK == /\ \A j \in 1..n : ev.etree[j] \in 0..n
+                 /\ [j \in Cols(n) |-> ev.etree[j + 1]] = ColEtreeDef(PatternOf(ev.A0, tr), n, n, SeqToFn(ev.perm_c, n))
       bad == fv.bad \cup iv.bad
         \cup (IF ~EquedOK(q) THEN {"C05.equed_letter"} ELSE {})
         \cup (IF EquedOK(q) /\ ~query /\ info >= 0 /\ fact # 3 /\ ~ascaled THEN {"C05.A_scaled_as_equed"} ELSE {})
@@ -416,6 +426,10 @@ GssvxVerdict(ev, sc) ==
         \cup (IF fact = 3 /\ info >= 0 /\ ~(ev.same.Lval = 1 /\ ev.same.Uval = 1 /\ ev.same.Lstr = 1 /\ ev.same.Ustr = 1 /\ ev.same.perm_c = 1 /\ ev.same.perm_r = 1)
               THEN {"C06.resolve_altered_factors"} ELSE {})
         \cup (IF fact \in {1, 2} /\ info >= 0 /\ ev.same.perm_c # 1 THEN {"C06.column_order_not_reused"} ELSE {})
+        \* the elimination tree is part of what a later SamePattern call reuses: with Fact # DOFACT it is an input and stays as it was;
+        \* after DOFACT it is the column elimination tree of A under the returned column order (C10), whatever ?gstrf did with it meanwhile
+        \cup (IF fact # 0 /\ ~query /\ info >= 0 /\ ev.same.etree # 1 THEN {"C06.etree_not_reused", "C10.driver_etree_changed_without_DOFACT"} ELSE {})
+        \cup (IF etreeDue /\ ~etreeOK THEN {"C10.driver_etree_is_not_the_column_etree", "C06.etree_returned_is_not_the_tree_of_perm_c"} ELSE {})
         \cup (IF fact = 3 /\ info >= 0 /\ (\E t \in 1..Len(ev.A0) : ev.A1v[t] # ev.A0[t][3]) THEN {"C06.resolve_modified_A"} ELSE {})
         \cup (IF haswork /\ ev.work.guards_ok # 1 THEN {"C08.guard_overrun"} ELSE {})
         \cup (IF sc.memfail /\ ~(info > n) THEN {"C08.shortage_not_reported"} ELSE {})
@@ -424,10 +438,10 @@ GssvxVerdict(ev, sc) ==
                            /\ (Has(ev, "B_same") => ev.B_same = 1 /\ ev.X_same = 1))
               THEN {"C08.query_not_pure"} ELSE {})
         \cup (IF query /\ ~(info > n) THEN {"C08.query_info"} ELSE {})
-        \cup (IF sc.ref # <<>> /\ (sc.refd2 \/ BitwiseAll) /\ factored /\ info = 0 /\ digs # <<>> /\ digs # sc.ref THEN {"C07.storage_changed_result"} ELSE {})
+        \cup (IF sc.ref # <<>> /\ (sc.refd2 \/ BitwiseAll) /\ factored /\ cmpInfo /\ digs # <<>> /\ digs # sc.ref THEN {"C07.storage_changed_result"} ELSE {})
         \* structure and permutations never depend on rounding: compared in every case
-        \cup (IF sc.ref # <<>> /\ factored /\ info = 0 /\ digs # <<>> /\ ~(sc.refd2 \/ BitwiseAll)
-                 /\ <<digs[2], digs[4], digs[5], digs[6], digs[7], digs[8]>> # <<sc.ref[2], sc.ref[4], sc.ref[5], sc.ref[6], sc.ref[7], sc.ref[8]>>
+        \cup (IF sc.ref # <<>> /\ factored /\ cmpInfo /\ digs # <<>> /\ ~(sc.refd2 \/ BitwiseAll)
+                 /\ <<digs[2], digs[4], digs[5], digs[6], digs[7], digs[8], digs[9]>> # <<sc.ref[2], sc.ref[4], sc.ref[5], sc.ref[6], sc.ref[7], sc.ref[8], sc.ref[9]>>
               THEN {"C07.storage_changed_structure"} ELSE {})
         \cup (IF factored /\ info = 0 /\ sc.memev /\ ev.expansions # sc.nexp THEN {"C07.expansions_count"} ELSE {})
         \cup (IF factored /\ info = 0 /\ Has(ev, "L") /\ Has(ev.L, "rowind") /\ ev.itsz = 4 /\ ~MemUsageOK(ev) THEN {"C07.mem_usage"} ELSE {})
@@ -458,15 +472,16 @@ GssvxVerdict(ev, sc) ==
         \cup (IF refOff THEN {"C13.no_refinement"} ELSE {})
         \cup (IF EquedOK(q) /\ needRC /\ ascaledChecked THEN {"C05.A_scaling_exact"} ELSE {})
         \cup (IF solved /\ bneeds /\ bok /\ rcok THEN {"C05.B_scaling_exact"} ELSE {})
-        \cup (IF sc.ref # <<>> /\ (sc.refd2 \/ BitwiseAll) /\ factored /\ info = 0 /\ digs # <<>> THEN {"C07.compared_bitwise"} ELSE {})
-        \cup (IF sc.ref # <<>> /\ ~(sc.refd2 \/ BitwiseAll) /\ factored /\ info = 0 /\ digs # <<>> THEN {"C07.compared_structure"} ELSE {})
+        \cup (IF sc.ref # <<>> /\ (sc.refd2 \/ BitwiseAll) /\ factored /\ cmpInfo /\ digs # <<>> THEN {"C07.compared_bitwise"} \cup (IF info > 0 THEN {"C07.compared_with_replaced_pivots"} ELSE {}) ELSE {})
+        \cup (IF sc.ref # <<>> /\ ~(sc.refd2 \/ BitwiseAll) /\ factored /\ cmpInfo /\ digs # <<>> THEN {"C07.compared_structure"} \cup (IF info > 0 THEN {"C07.compared_with_replaced_pivots"} ELSE {}) ELSE {})
         \cup (IF haswork /\ ev.work.lwork > 0 THEN {"C08.user_workspace_run"} ELSE {})
         \cup (IF factored /\ info = 0 /\ sc.memev THEN {"C07.expansions_" \o (IF sc.nexp = 0 THEN "0" ELSE IF sc.nexp < 3 THEN "1-2" ELSE "3+")} ELSE {})
         \cup (IF query THEN {"C08.query_checked"} ELSE {})
         \cup (IF sc.memfail THEN {"C08.shortage_seen"} ELSE {})
         \cup (IF q # "N" THEN {"C05.equed_" \o q} ELSE {})
+        \cup (IF etreeDue THEN {"C10.driver_etree_checked"} ELSE {})
         \cup {"C06.fact_" \o (CASE fact = 0 -> "DOFACT" [] fact = 1 -> "SamePattern" [] fact = 2 -> "SameRowPerm" [] OTHER -> "FACTORED")}
-  IN [bad |-> bad, arb |-> fv.arb \cup sv.arb \cup numarb \cup iv.arb, cov |-> cov \cup iv.cov, digs |-> IF factored /\ info = 0 THEN digs ELSE <<>>, d2 |-> fv.d2]
+  IN [bad |-> bad, arb |-> fv.arb \cup sv.arb \cup numarb \cup iv.arb, cov |-> cov \cup iv.cov, digs |-> IF factored /\ cmpInfo THEN digs ELSE <<>>, d2 |-> fv.d2]
 
 (***************************************************************************)
 (* ?gsequ + ?laqgs on the log domain DL (C11): every logged quantity is     *)
@@ -554,8 +569,6 @@ LaconVerdict(ev) ==
 (* at_plus_a.  sc.ordref = column order returned for this pattern by an     *)
 (* earlier call of the same scenario with the same method (other values).   *)
 (***************************************************************************)
-SeqToFn(s, n) == [i \in Cols(n) |-> s[i + 1]]
-IsPermSeq(s, n) == Len(s) = n /\ {s[i] : i \in 1..n} = Cols(n)
 OrderVerdict(ev, sc) ==
   LET m == ev.m  n == ev.n
       pat == PatternOf(ev.A0, FALSE)
@@ -792,7 +805,9 @@ ScreenI == INSTANCE SluScreen WITH done <- FALSE
 ScreenVerdict(ev) ==
   LET corrs == {ev.corrupt[i] : i \in 1..Len(ev.corrupt)}
       \* preconditions on equed / R / C exist only when pre-computed factors are supplied
-      eff == IF ev.fact = 3 THEN corrs ELSE corrs \ ScreenI!NeedsFactored
+      \* (and the scale factors only for the kind of equilibration the equed letter names)
+      eq == IF Has(ev, "eq") THEN ev.eq ELSE "B"
+      eff == IF ev.fact = 3 THEN ScreenI!EffectiveEq(corrs, eq) ELSE corrs \ ScreenI!NeedsFactored
       expect == ScreenI!Screen(ev.routine, eff)
       bad == (IF expect # 0 /\ ev.info # expect THEN {"C18.info_position"} ELSE {})
              \cup (IF expect # 0 /\ ev.unchanged # 1 THEN {"C18.caller_objects_modified"} ELSE {})
